@@ -503,6 +503,12 @@ static void generate_minimal_hash(Ports &p, Port_Matcher &pm)
             enump = true;
     if(enump)
         return;
+    //the hashed lookup sees only the first component of the message
+    for(unsigned i=0; i<p.ports.size(); ++i) {
+        const char *slash = strchr(p.ports[i].name, '/');
+        if(slash && slash[1] && slash[1] != ':')
+            return;
+    }
     for(unsigned i=0; i<p.ports.size(); ++i)
     {
         std::string tmp = p.ports[i].name;
